@@ -98,8 +98,8 @@ impl Prop for C01 {
     fn rule(&self) -> String {
         "Generated: pairs (Decimal representation, Decimal or primitive integer of any of the 9 types on either side) from \
          class-based generators (small, uniform bit length, 10^k+-d, 2^k+-d, top of range, MAX/10^k+-d, trailing zeros, 2^a5^b, zero; scales 0..=18) \
-         plus derived pairs whose aligned sum/difference lands within 3 of +-2^127, pairs where only the re-scaled operand overflows, and integer operands at the edge. \
-         Each case runs +, -, checked_add, checked_sub in all by-value/by-reference forms and += / -=, compared with exact big-integer arithmetic. \
+         plus related pairs (same value at another scale, negation, neighbours, power-of-ten multiples), machine-word boundary pairs, unit-like operands (+-m*10^z, m mostly 1), derived pairs whose aligned sum/difference lands within 3 of +-2^127, pairs where only the re-scaled operand overflows, and integer operands at the edge. \
+         Each case runs +, -, checked_add, checked_sub in all by-value/by-reference forms and += / -=, compared with exact big-integer arithmetic; follow-up cases repeat an operand of the previous case on the same thread. \
          Non-trivial: scales differ, or |exact result| >= 2^120, or an overflow signal is expected. Distinct: hash of (x, y)."
             .into()
     }
